@@ -120,3 +120,54 @@ func VerifStorageCacheSlab(s *PersistentSlabStorage, id SlabID) (Slab, bool) {
 func VerifNewStorableSlabWithID(id SlabID, storable Storable) *StorableSlab {
 	return &StorableSlab{slabID: id, storable: storable}
 }
+
+// VerifArrayDump returns a pre-order dump of every cached field of the array's slab tree:
+// data slab  [0, index, size, count, next index, n, (elemID, elemSize, elemExt)*]
+// index slab [1, index, size, count, n, (childIndex, childSize, childCount)*, childrenCountSum*, children...]
+// elem maps an element storable to the harness's (identity, external slab index or 0).
+func VerifArrayDump(a *Array, elem func(Storable) (int64, uint64)) ([]int64, error) {
+	var out []int64
+	var rec func(slab ArraySlab) error
+	rec = func(slab ArraySlab) error {
+		switch s := slab.(type) {
+		case *ArrayDataSlab:
+			out = append(out, 0, int64(s.header.slabID.IndexAsUint64()), int64(s.header.size), int64(s.header.count),
+				int64(s.next.IndexAsUint64()), int64(len(s.elements)))
+			for _, e := range s.elements {
+				id, ext := elem(e)
+				out = append(out, id, int64(e.ByteSize()), int64(ext))
+			}
+		case *ArrayMetaDataSlab:
+			out = append(out, 1, int64(s.header.slabID.IndexAsUint64()), int64(s.header.size), int64(s.header.count),
+				int64(len(s.childrenHeaders)))
+			for _, h := range s.childrenHeaders {
+				out = append(out, int64(h.slabID.IndexAsUint64()), int64(h.size), int64(h.count))
+			}
+			for _, c := range s.childrenCountSum {
+				out = append(out, int64(c))
+			}
+			for _, h := range s.childrenHeaders {
+				child, err := getArraySlab(a.Storage, h.slabID)
+				if err != nil {
+					return err
+				}
+				if err := rec(child); err != nil {
+					return err
+				}
+			}
+		}
+		return nil
+	}
+	err := rec(a.root)
+	return out, err
+}
+
+// VerifArrayRootHeader returns (slab index, cached size, cached count) of the root slab.
+func VerifArrayRootHeader(a *Array) [3]uint64 {
+	h := a.root.Header()
+	return [3]uint64{h.slabID.IndexAsUint64(), uint64(h.size), uint64(h.count)}
+}
+
+func VerifArrayMutableElementIndex(a *Array) map[ValueID]uint64 { return a.mutableElementIndex }
+func VerifArrayHasParentUpdater(a *Array) bool                  { return a.parentUpdater != nil }
+func VerifMapHasParentUpdater(m *OrderedMap) bool               { return m.parentUpdater != nil }
